@@ -1126,7 +1126,7 @@ func (w *World) compare(seg Segment) {
 		return fmt.Sprintf("\n  expected:  %v\n  delivered: %v", seg.Expected, seg.Delivered)
 	}
 	if len(missing) > 0 {
-		w.find(FMissing, "not delivered: %v%s", missing, ctx())
+		w.find(FMissing, "not delivered: %v%s%s", missing, ctx(), w.recursiveDiag())
 	}
 	if len(extra) > 0 {
 		w.find(FExtra, "delivered but not expected: %v%s", extra, ctx())
@@ -1204,6 +1204,30 @@ func (w *World) compare(seg Segment) {
 			}
 		}
 	}
+}
+
+// recursiveDiag describes, for a recursive-mode case, what the Watcher and the
+// kernel hold at the moment an event is found missing (diagnostics only).
+func (w *World) recursiveDiag() string {
+	if w.R == nil {
+		return ""
+	}
+	var b strings.Builder
+	fmt.Fprintf(&b, "\n  WatchList: %q", w.W.WatchList())
+	if ms, err := Fdinfo(w.Wfd); err == nil {
+		fmt.Fprintf(&b, "\n  kernel marks of the Watcher: %+v", ms)
+	}
+	if ms, err := Fdinfo(w.Sh.Fd); err == nil {
+		fmt.Fprintf(&b, "\n  kernel marks of the shadow:  %+v", ms)
+	}
+	tr := w.R.Trace
+	if len(tr) > 14 {
+		tr = tr[len(tr)-14:]
+	}
+	fmt.Fprintf(&b, "\n  last shadow records: %+v", tr)
+	n, _ := Fionread(w.Wfd)
+	fmt.Fprintf(&b, "\n  unread bytes in the Watcher's queue: %d", n)
+	return b.String()
 }
 
 // Subst replaces the AbsRoot placeholder.
